@@ -4,6 +4,5 @@ CONSTANTS
   Names = {"a", "b"}
   MaxCost = 4
   Directed = TRUE
-  CompleteUpTo = 0
-INVARIANTS Dbg RT GenOK
+INVARIANTS RT GenSound Emit
 CHECK_DEADLOCK FALSE
